@@ -68,6 +68,11 @@ func declareAlgebra() {
 		d(l+".string", []string{g}, "Str")
 		d(l+".hash", []string{"Str"}, g)
 	}
+	// encodings are valid and decode to the encoded element (library round trip, assumed)
+	for _, g := range []string{"g1", "g2"} {
+		G := strings.ToUpper(g)
+		reg.decl(fmt.Sprintf("(assert (forall ((x!e %s)) (! (and (%s.valid (%s.bytes x!e)) (= (%s.ofbytes (%s.bytes x!e)) x!e)) :pattern ((%s.bytes x!e)))))", G, g, g, g, g, g))
+	}
 	d("gt.pair", []string{"G2", "G1"}, "GT")
 	d("gt.pair2", []string{"G2", "G1", "G2", "G1"}, "GT")
 	d("gt.fexp", []string{"GT"}, "GT")
@@ -248,12 +253,7 @@ func (e *Engine) algBuiltin(env *Env, name string, ex *SExpr) (Val, bool) {
 	mk := func(sort string, term string) (Val, bool) {
 		return Val{S: term, T: algType(sort)}, true
 	}
-	str := func(v Val) string {
-		if sortOf(v.T) == "Str" {
-			return v.S
-		}
-		return e.contentOf(env.st, v)
-	}
+	str := func(v Val) string { return env.content(v) }
 	bin := func(fn, res string) (Val, bool) {
 		declareAlgebra()
 		return mk(res, fmt.Sprintf("(%s %s %s)", fn, arg(0).S, arg(1).S))
